@@ -99,14 +99,30 @@ def run(prop, tier, seed):
         sc["tree"]["p.diff"] = ("R", 0o644, text)
         sc["single_fmt"] = "unified" if fm == "unified" else None
         combined.append(sc)
+    for _ in range(nl2 // 5):
+        # one git stream that fills a directory and empties it: an added file, and the removal of the only file there so far
+        d_ = rng.choice(["nd", "nd/deep"])
+        sa = scen.section(rng, d_ + "/new.txt", kind="add", fmt="git")
+        sb = scen.section(rng, d_ + "/old.txt", kind="delete", fmt="git")
+        sx = scen.section(rng, "other", kind="change", fmt="git", nonl=False)
+        order = rng.choice([[sa, sb], [sb, sa], [sa, sx, sb], [sx, sa, sb]])
+        sc = scen.base_scenario(rng, order, opts={})
+        sc["single_fmt"] = None
+        combined.append(sc)
+    # bytes above 0x7f in the text around the sections (names in mail headers and signatures)
+    for sc in combined:
+        if rng.random() < 0.15 and "p.diff" in sc["tree"]:
+            t_ = b"From: J\xfcrgen M\xffller <j@example.org>\n" + sc["secs"][0]["text"]
+            for x in sc["secs"][1:]:
+                t_ += b"-- \nSent by \xff\xfe mailer\n" + (b"--\n" if x["fmt"] == "context" else b"") + x["text"]
+            if not any(x["fmt"] == "context" for x in sc["secs"][:-1]):
+                sc["tree"]["p.diff"] = ("R", 0o644, t_)
     res, b2, m2 = l2_family(run_, exe, combined, lambda s, r: None, cls=lambda s, r: "combined exit %d" % r["exit"], label="C11")
     import wide
     wb, wm = wide.wide_family(run_, exe, rng, 150 if tier == "quick" else 3000, prop="C11")
     m2 = m2 + wm
     l2bad = list(b2)
     for sc, r in zip(combined, res):
-        if r["exit"] == 2:
-            continue
         tree = {p: v for p, v in sc["tree"].items()}
         worst = 0
         ok = True
